@@ -18,7 +18,7 @@ Sub-checks (one case = one configuration; `cases(tier)` is the complete list)
              (1.0 or 2.5); the coarse diffusion coefficient (1-d) / diffusion matrix (n-d) is level l-1's, the fine one
              level l's;
        (iv)  a few paths are simulated with every random source scripted and checked as in `assembly`.
- assembly (dim 1 and 2)   simulate_one_path_with_coupling with every random source the library draws from replaced by
+ assembly (dim 1, 2, 3)   simulate_one_path_with_coupling with every random source the library draws from replaced by
        deterministic streams, several jumps per interval, 1 or 2 intervals. The fine chain's own output (the MarkovChain
        returned by fine._path_simulation.simulate_markov_chain: increments, values, times per interval) is recorded, and
        the coupled path is compared AT EVERY TIME of its own time grid (not only the terminal value):
@@ -43,6 +43,8 @@ Alphabets
        ValueError / TypeError for the others);
  levels 1, 2 (3 thorough);
  routes: next_level(path_managers=[...]) (the engine) and next_level(path_managers=None, max_step_epsilon=eps) (CouplingSDE);
+       number of paths handed to next_level 1, 0 (what Engine.price hands over) and 3; max_step_epsilon 0.4 (below the maturity:
+       the time grid is refined) and 3.0 (above it);
  simulation classes: FixedTimes (deterministic dates), WithJumpTimes (stochastic dates), MaximumStep (max_step_epsilon);
  products: maturity 1.0 / 2.5, Spot underlying (one interval) and yearly Asian underlying (dates 0, 1.25, 2.5);
  histories between two refinements: "plain" (nothing), "kernel" (the kernel of every state is used), "simulate"
@@ -53,8 +55,10 @@ Alphabets
        product: a second pricing with the same object); the reference chains and the twin coupling are built while the
        observed object exists (a second object of the same class in between); a grid refined once by the caller before the
        constructor (pre=1).
- The auxiliary axes (method, history, simulation class, product) are ROTATED over the (model, grid, level, route) lattice, not
- multiplied with it: every value of every axis occurs with every level and route, not with every model and grid.
+ The auxiliary axes (method, history, simulation class, product, number of paths, epsilon) are ROTATED over the lattices, not
+ multiplied with them: in kernel1d every value of every axis occurs at every level on every route, in kernelnd at every level,
+ in assembly with every (method, simulation class) - not with every model and grid. `post` marks the run as not exhaustive
+ (caps) when a class a sub-check exists for was not reached or a case fell outside the alphabet.
 
 Outside the alphabet (statement silent or constructor refuses): CTMCGridProbabilityStep in dimension 2 (its constructor needs a
  1-d model: AttributeError); copula coupling with ALIAS / TABLE / BINARYSEARCHTREE / HUFFMANNTREE / BINARYSEARCHTREEADAPTED1D
@@ -116,7 +120,6 @@ PRODUCTS = [
     {"maturity": 2.5, "underlying": "asian"},
     {"maturity": 2.5, "underlying": "spot"},
 ]
-EPS = 0.4  # max_step_epsilon of the direct cases (below both maturities: the time grid is really refined)
 
 CM_HV = {"margins": ["hem", "vg"], "copula": {"kind": "clayton", "theta": 0.7, "eta": 0.3}}
 CM_CH = {"margins": ["cgmy05", "hem2"], "copula": {"kind": "clayton", "theta": 3.0, "eta": 1.0}}
@@ -141,13 +144,17 @@ def _aux(j, level, r, dim=1):
     if route == "pm":
         mode = MODES[(j + level) % 3]
     else:
-        mode = ("maxstep", "maxstep", "fixed")[j % 3]
+        mode = ("maxstep", "maxstep", "fixed", "jumptimes")[j % 4]
     return {
         "method": methods[(j + 2 * level + 3 * r) % len(methods)],
         "route": route,
         "history": HISTORIES[(j + level - 1 + r) % len(HISTORIES)],
         "mode": mode,
         "product": PRODUCTS[(j + level + r) % 3],
+        # number of paths handed to next_level (Engine.price hands over the number of paths the new level has so far: 0)
+        "mc_paths": (1, 0, 3)[(j + level) % 3],
+        # max_step_epsilon of the maximum-step class: below both maturities (time grid refined) / above (nothing to refine)
+        "eps": (0.4, 3.0)[(j // 2 + r) % 2],
     }
 
 
@@ -189,17 +196,19 @@ def cases(tier):
             out.append(dict({"sub": "kernel1d", "model": m, "grid": g, "level": 1, "pre": 1}, **_aux(j, 1, j % 2)))
             j += 1
     # ---------------------------------------------------------------- assembly, dimension 1
-    j = 0
     amodels = [HEM, CG12, dict(HEM, via="reinit")] + ([VG] if thorough else [])
-    for m in amodels:
-        for g in (grids[:3] if m.get("via") != "reinit" else grids[:1]):
-            for meth in METHODS_1D:
-                for mode in MODES:
-                    level = 1 + (j % 2) if not thorough else 1 + (j % 3)
-                    r = (j // 2) % 2
-                    out.append({"sub": "assembly", "dim": 1, "model": m, "grid": g, "level": level, "method": meth, "mode": mode,
-                                "route": ("pm", "none")[r], "history": HISTORIES[(j // 3) % len(HISTORIES)], "product": PRODUCTS[(j // 2) % 3]})
-                    j += 1
+    nl = 3 if thorough else 2
+    for mi, m in enumerate(amodels):
+        for gi, g in enumerate(grids[:3] if m.get("via") != "reinit" else grids[:1]):
+            for ti, meth in enumerate(METHODS_1D):
+                for oi, mode in enumerate(MODES):
+                    # rotations chosen so that, for every (method, simulation class), the (model, grid) pairs run through every
+                    # level, route, history, product, number of paths and epsilon
+                    out.append({"sub": "assembly", "dim": 1, "model": m, "grid": g, "level": 1 + (gi + mi + oi) % nl, "method": meth,
+                                "mode": mode, "route": ("pm", "none")[(mi + gi + ti) % 2],
+                                "history": HISTORIES[(2 * gi + mi + ti + oi) % len(HISTORIES)],
+                                "product": PRODUCTS[(2 * gi + mi + ti) % 3], "mc_paths": (1, 0, 3)[(gi + oi + ti) % 3],
+                                "eps": (0.4, 3.0)[(mi + gi) % 2]})
     # ---------------------------------------------------------------- kernelnd
     cms = [CM_HV, CM_CH, CM_IND, CM_DEP] + ([CM_VC] if thorough else [])
     grids2 = [G_F3, G_F5, G_CR] + ([G_CRA] if thorough else [])
@@ -221,10 +230,12 @@ def cases(tier):
                     out.append(knd(cm, g, level, r))
             j += 1
     # an infinite-variation margin (level-dependent diffusion matrix), both margin orders, both routes, both levels
+    n = 0
     for cm in (CM_IV, CM_IV2):
         for level in (1, 2):
             for r in (0, 1):
-                out.append(knd(cm, G_F3, level, r, stub=True))
+                out.append(dict(knd(cm, G_F3, level, r, stub=True), history=HISTORIES[n % len(HISTORIES)]))
+                n += 1
         j += 1
     out.append(knd(CM_IV, G_F5, 1, 0, stub=True))
     j += 1
@@ -244,19 +255,23 @@ def cases(tier):
             out.append(knd(CM_IV, G_F3, level, level % 2, stub=False))
         j += 1
     # ---------------------------------------------------------------- assembly, dimension 2
-    j = 0
-    for cm in [CM_HV, CM_CH, CM_IV] + ([CM_DEP, CM_IND] if thorough else []):
-        for g in ([G_F3] if not thorough else [G_F3, G_CRA]):
-            for meth in METHODS_ND:
-                for mode in MODES:
+    for ci, cm in enumerate([CM_HV, CM_CH, CM_IV] + ([CM_DEP, CM_IND] if thorough else [])):
+        for gi, g in enumerate([G_F3] if not thorough else [G_F3, G_CRA]):
+            for ti, meth in enumerate(METHODS_ND):
+                for oi, mode in enumerate(MODES):
                     for level in (1, 2):
-                        r = (j // 2) % 2
                         c = {"sub": "assembly", "dim": 2, "model": cm, "grid": g, "level": level, "method": meth, "mode": mode,
-                             "route": ("pm", "none")[r], "history": HISTORIES[(j // 3) % len(HISTORIES)], "product": PRODUCTS[(j // 2) % 3]}
+                             "route": ("pm", "none")[(ci + gi + level + ti) % 2],
+                             "history": HISTORIES[(2 * ci + gi + level - 1 + ti + oi) % len(HISTORIES)],
+                             "product": PRODUCTS[(2 * ci + gi + level + ti) % 3], "mc_paths": (1, 0, 3)[(ci + gi + oi + ti) % 3],
+                             "eps": (0.4, 3.0)[(ci + level) % 2]}
                         if cm is CM_IV:
                             c["stub"] = True
                         out.append(c)
-                        j += 1
+    # dimension 3 (the 3-point grid): one simulation class in the quick tier, all three in the thorough tier
+    for mode in (MODES if thorough else MODES[1:2]):
+        out.append({"sub": "assembly", "dim": 3, "model": cm3, "grid": G_F3, "level": 1, "method": "INVERSION", "mode": mode,
+                    "route": "pm", "history": "simulate", "product": PRODUCTS[1], "mc_paths": 0, "eps": 0.4})
     # ---------------------------------------------------------------- SDE coupling
     j = 0
     sde = [
@@ -646,7 +661,7 @@ def take_to_level(sh, D, case, product, cls, sub, nsim=2):
     model = D.model(case["model"])
     grid = A.make_grid(dict(case["grid"], refine=case.get("pre", 0)), model, D.dim)
     cp = D.coupling(model, grid, SamplingMethod[case["method"]])
-    eps = EPS if case.get("mode") == "maxstep" else None
+    eps = case.get("eps", 0.4) if case.get("mode") == "maxstep" else None
     product.update(cp.fine_process.process_representation)
     if eps is None:
         cp.initialisation(product)
@@ -692,7 +707,7 @@ def take_to_level(sh, D, case, product, cls, sub, nsim=2):
                              f"history {history}: simulating at level {l} before next_level: {e!r}", None)
             if history == "engine":
                 cp = copy.deepcopy(cp)
-        cp.next_level(mc_paths=1, path_managers=pms, product=product, max_step_epsilon=eps)
+        cp.next_level(mc_paths=case.get("mc_paths", 1), path_managers=pms, product=product, max_step_epsilon=eps)
     return cp, pms
 
 
@@ -1012,9 +1027,10 @@ def verify_paths(sh, D, cp, twin, product, refs, cls, sub, n_paths, st, per_jump
         ev_t = np.array([e[0] for e in events], dtype=float)
         bad = None
         if T.size < 2 or T[0] != 0.0 or not core.close(T[-1], maturity, rtol=1e-12):
-            bad = ("time-grid-ends", f"times {T.tolist()[:6]}... maturity {maturity}")
-        elif per_jump_times and not all(np.any(np.abs(T - t) <= 1e-12 * max(1.0, maturity)) for t in ev_t):
-            bad = ("jump-time-missing-from-the-path", f"jump times {ev_t.tolist()} path times {T.tolist()}")
+            sh.count("path-time-grid-does-not-span-0-to-maturity")  # C15's subject; the comparison below does not need it
+        if per_jump_times and not all(np.any(np.abs(T - t) <= 1e-12 * max(1.0, maturity)) for t in ev_t):
+            # the fine component is the level-l chain's path: every jump time of the chain is a time of the pair
+            bad = ("jump-time-of-the-fine-chain-missing-from-the-path", f"jump times {ev_t.tolist()} path times {T.tolist()}")
         if bad is None:
             for n, t in enumerate(T):
                 k = int(np.searchsorted(ev_t, t + 1e-12 * max(1.0, maturity), side="right"))
@@ -1172,6 +1188,7 @@ def post(total, tier):
     for n in need:
         if n not in total.classes:
             total.cap(f"coverage floor not reached: {n}")
-    for n in ("outside-alphabet-grid", "fine-diffusion-identically-zero-with-positive-coefficient", "seam-missing"):
+    for n in ("outside-alphabet-grid", "fine-diffusion-identically-zero-with-positive-coefficient", "seam-missing",
+              "path-time-grid-does-not-span-0-to-maturity"):
         if total.counters.get(n):
             total.cap(f"{n}: {total.counters[n]} case(s)")
